@@ -432,6 +432,29 @@ class World:
             self._wrap_handler(h)
         self.orchestrator = Orchestrator(self.queue, self.store)
 
+    def second_worker(self) -> None:
+        """Another worker process on the same database: its own QueueProcessor built with the DEFAULT
+        configuration and its own duplicate filter, hydrated now.  ``self.active`` selects which worker
+        handles the next deliveries ("A" = the world's own processor, "B" = this one)."""
+        import stabilize.queue.processor.mixins as _mix
+        from stabilize.queue.dedup import BloomDeduplicator
+
+        self._dedup_b = BloomDeduplicator(expected_items=4000, false_positive_rate=0.001)
+        self._real_get_dedup = _mix.get_deduplicator
+        world = self
+
+        def get_dedup(*a: Any, **k: Any) -> Any:
+            return world._dedup_b if world.active == "B" else world._real_get_dedup(*a, **k)
+
+        _mix.get_deduplicator = get_dedup  # type: ignore[assignment]
+        self.active = "B"
+        try:
+            self.processor_b = QueueProcessor(self.queue, config=QueueProcessorConfig(enable_lock_heartbeat=False), store=self.store, task_registry=self.registry)
+        finally:
+            self.active = "A"
+        for mt, h in list(self.processor_b._handlers.items()):
+            self._wrap_handler(h)
+
     def _wrap_handler(self, h: Any) -> None:
         orig = h.handle
         world = self
@@ -453,7 +476,15 @@ class World:
         if expire_locks:
             stubs.CLOCK.advance(int(self.lock_seconds * 1000) + 2000)
 
+    def _restore_second_worker(self) -> None:
+        if getattr(self, "_real_get_dedup", None) is not None:
+            import stabilize.queue.processor.mixins as _mix
+
+            _mix.get_deduplicator = self._real_get_dedup  # type: ignore[assignment]
+            self._real_get_dedup = None
+
     def close(self) -> None:
+        self._restore_second_worker()
         global _CURRENT_WORLD
         HOOKS.dead = False
         HOOKS.on_commit = None
@@ -628,7 +659,16 @@ class World:
         try:
             self._in_deliver = True
             try:
-                self.processor._handle_message(msg)
+                if getattr(self, "active", "A") == "B":
+                    HOOKS.ctx = mtype
+                    HOOKS.handler_base = HOOKS.commits
+                    try:
+                        self.processor_b._handle_message(msg)
+                    finally:
+                        HOOKS.ctx = ""
+                        HOOKS.handler_base = HOOKS.commits
+                else:
+                    self.processor._handle_message(msg)
             finally:
                 self._in_deliver = False
             if ack:
